@@ -27,6 +27,9 @@ CfgOf(b) == [hosts |-> b.hosts, pol |-> [kind |-> b.polkind, n |-> b.poln, allow
 BlankCfg == [hosts |-> <<>>, pol |-> [kind |-> "none", n |-> 0, allow |-> {}], outs |-> {}, k |-> 0, idem |-> FALSE, cancel |-> FALSE]
 Proj(r) == Ev(r.ev, r.e, r.h, r.n, r.x, r.y)
 
+\* an end-to-end observer cannot see which *Iter executeQuery returned (n = -1 in the log)
+SameEvent(a, b) == IF b.ev = "return" /\ b.n = -1 THEN [a EXCEPT !.n = -1] = b ELSE a = b
+
 \* all Executor variables in the blank state between traces
 BlankNext == /\ cfg' = BlankCfg /\ ex' = [e \in E |-> Ex0] /\ ipos' = 0 /\ cnt' = 0 /\ started' = 0 /\ spawned' = 1 /\ launched' = 0
           /\ chan' = NoRes /\ ret' = NoRes /\ cancelled' = FALSE /\ returned' = FALSE
@@ -45,7 +48,7 @@ InTrace == l <= NLog /\ tid # 0 /\ Log[l].ev \notin {"begin"}
 
 Visible == /\ InTrace /\ Log[l].ev \notin {"endtrace", "quiesce"}
            /\ VisibleNext
-           /\ last' = Proj(Log[l])
+           /\ SameEvent(last', Proj(Log[l]))
            /\ l' = l + 1 /\ tid' = tid
 
 \* harness knowledge, not an action of the executor: only the monitor takes note
